@@ -1585,3 +1585,263 @@ Proof.
   - (* iter(chain(a, ..)) -> chain(a, ..) *)
     rewrite eval_EBi, Ea, Ek, Hch. cbn [option_map bapply items_of] in *. exact Hev.
 Qed.
+
+(* ------------------------------------------------------------------------------------------- *)
+(* dicts *)
+
+Definition dict_has (d : list (val * val)) (k : val) : bool := existsb (fun kv => key_eqb (fst kv) k) d.
+
+Lemma key_eqb_congr_r : forall a b c, key_eqb a b = true -> key_eqb c a = key_eqb c b.
+Proof. intros. rewrite (key_eqb_sym c a), (key_eqb_sym c b). apply key_eqb_congr_l. assumption. Qed.
+
+Ltac dsimpl := cbn [dict_set dict_has existsb fst snd orb] in *.
+
+Lemma dict_has_set : forall d k v, dict_has (dict_set d k v) k = true.
+Proof.
+  induction d as [|[k' v'] d IH]; intros k v; dsimpl.
+  - rewrite key_eqb_refl. reflexivity.
+  - destruct (key_eqb k' k) eqn:E; dsimpl; rewrite E; [reflexivity|]. cbn [orb]. apply IH.
+Qed.
+
+Lemma dict_has_mono : forall d k k' v', dict_has d k = true -> dict_has (dict_set d k' v') k = true.
+Proof.
+  induction d as [|[k0 v0] d IH]; intros k k' v' H; [discriminate|]. dsimpl.
+  destruct (key_eqb k0 k') eqn:E; dsimpl.
+  - assumption.
+  - destruct (key_eqb k0 k); [reflexivity|]. cbn [orb] in *. apply IH. assumption.
+Qed.
+
+Lemma dict_set_same_slot : forall d k1 k v,
+  key_eqb k1 k = true -> dict_has d k = true -> dict_set d k1 v = dict_set d k v.
+Proof.
+  induction d as [|[k0 v0] d IH]; intros k1 k v He Hh; [discriminate|]. dsimpl.
+  rewrite (key_eqb_congr_r k1 k k0 He). destruct (key_eqb k0 k); [reflexivity|]. cbn [orb] in Hh.
+  f_equal. apply IH; assumption.
+Qed.
+
+Lemma dict_set_overwrite : forall d k x k1 v1,
+  key_eqb k k1 = true -> dict_set (dict_set d k x) k1 v1 = dict_set d k v1.
+Proof.
+  induction d as [|[k0 v0] d IH]; intros k x k1 v1 He; dsimpl.
+  - rewrite He. reflexivity.
+  - destruct (key_eqb k0 k) eqn:E; dsimpl.
+    + rewrite (key_eqb_trans _ _ _ E He). reflexivity.
+    + rewrite <- (key_eqb_congr_r k k1 k0 He), E. f_equal. apply IH. assumption.
+Qed.
+
+Lemma dict_set_comm : forall d k x k1 v1,
+  dict_has d k = true -> key_eqb k k1 = false ->
+  dict_set (dict_set d k x) k1 v1 = dict_set (dict_set d k1 v1) k x.
+Proof.
+  induction d as [|[k0 v0] d IH]; intros k x k1 v1 Hh Hne; [discriminate|]. dsimpl.
+  destruct (key_eqb k0 k) eqn:E; dsimpl.
+  - assert (E1 : key_eqb k0 k1 = false).
+    { destruct (key_eqb k0 k1) eqn:E1; [|reflexivity].
+      rewrite key_eqb_sym in E. rewrite (key_eqb_trans _ _ _ E E1) in Hne. discriminate. }
+    rewrite E1. dsimpl. rewrite E. reflexivity.
+  - cbn [orb] in Hh. destruct (key_eqb k0 k1) eqn:E1; dsimpl; rewrite E.
+    + reflexivity.
+    + f_equal. apply IH; assumption.
+Qed.
+
+Fixpoint lastv (k : val) (ps : list (val * val)) : option val :=
+  match ps with
+  | [] => None
+  | (k1, v1) :: tl => match lastv k tl with
+                      | Some x => Some x
+                      | None => if key_eqb k1 k then Some v1 else None
+                      end
+  end.
+
+Definition filt (k : val) (ps : list (val * val)) : list (val * val) :=
+  filter (fun kv => negb (key_eqb (fst kv) k)) ps.
+
+(* writing a sequence of pairs into a dict that already has key k: the writes to k can be replaced
+   by one write of the last value, done first *)
+Lemma dict_update_hoist : forall k ps E, dict_has E k = true ->
+  dict_update E ps = dict_update (match lastv k ps with Some x => dict_set E k x | None => E end) (filt k ps).
+Proof.
+  intros k. induction ps as [|[k1 v1] ps IH]; intros E Hh; [reflexivity|].
+  unfold dict_update in *. cbn [fold_left fst snd lastv filt filter].
+  destruct (key_eqb k1 k) eqn:E1; cbn [negb].
+  - rewrite (IH (dict_set E k1 v1)) by (apply dict_has_mono; assumption).
+    rewrite (dict_set_same_slot E k1 k v1 E1 Hh).
+    destruct (lastv k ps) as [x|]; [|reflexivity].
+    rewrite dict_set_overwrite by apply key_eqb_refl. reflexivity.
+  - rewrite (IH (dict_set E k1 v1)) by (apply dict_has_mono; assumption). cbn [fold_left fst snd].
+    destruct (lastv k ps) as [x|]; [|reflexivity].
+    rewrite (dict_set_comm E k x k1 v1); [reflexivity | assumption | rewrite key_eqb_sym; assumption].
+Qed.
+
+(* ------------------------------------------------------------------------------------------- *)
+(* fixes.remove_duplicate_dict_keys (repaired) *)
+
+Definition atomval (e : expr) (en : env) : option val :=
+  match e with
+  | EConst a => Some (val_of_atom a)
+  | EName x => en x
+  | _ => None
+  end.
+
+Lemma simple_eval_eq : forall w e en tr, simple e = true ->
+  eval w e en tr = match atomval e en with Some v => Some (v, tr) | None => None end.
+Proof. intros w e en tr H. destruct e; try discriminate; reflexivity. Qed.
+
+(* the (key, value) pairs written by a segment of constant-keyed entries with effect-free values *)
+Fixpoint resolve (en : env) (seg : list expr) : option (list (val * val)) :=
+  match seg with
+  | [] => Some []
+  | EKV (EConst a) v :: tl =>
+      match atomval v en, resolve en tl with
+      | Some x, Some ps => Some ((val_of_atom a, x) :: ps)
+      | _, _ => None
+      end
+  | _ :: _ => None
+  end.
+
+Lemma eval_seg : forall w en seg rest d tr, forallb seg_item_ok seg = true ->
+  eval_items (eval w) en (seg ++ rest) d tr =
+  match resolve en seg with
+  | Some ps => eval_items (eval w) en rest (dict_update d ps) tr
+  | None => None
+  end.
+Proof.
+  intros w en. induction seg as [|it seg IH]; intros rest d tr Hok; [reflexivity|].
+  cbn [forallb] in Hok. apply andb_true_iff in Hok as [Hit Hok].
+  destruct it; try discriminate. destruct it1; try discriminate. cbn [seg_item_ok] in Hit.
+  cbn [app eval_items resolve eval]. rewrite (simple_eval_eq _ _ _ _ Hit).
+  destruct (atomval it2 en) as [x|]; [|reflexivity]. rewrite hashable_atom, IH by assumption.
+  destruct (resolve en seg); reflexivity.
+Qed.
+
+Lemma last_seg_none : forall a l, last_seg a l = None -> remove_key a l = l.
+Proof.
+  intros a. induction l as [|it l IH]; intros H; [reflexivity|]. cbn [last_seg] in H.
+  destruct (last_seg a l) as [[seg vl]|]; [discriminate|]. unfold remove_key in *. cbn [filter].
+  rewrite IH by reflexivity.
+  destruct it; try reflexivity. destruct it1; try reflexivity. cbn [is_key_of].
+  destruct (atom_eqb a0 a); [discriminate | reflexivity].
+Qed.
+
+Lemma last_seg_spec : forall a l seg vl, last_seg a l = Some (seg, vl) ->
+  exists rest, l = seg ++ rest /\ remove_key a rest = rest /\
+    forall en ps, resolve en seg = Some ps ->
+      exists x, atomval vl en = Some x /\ lastv (val_of_atom a) ps = Some x.
+Proof.
+  intros a. induction l as [|it l IH]; intros seg vl H; [discriminate|]. cbn [last_seg] in H.
+  destruct (last_seg a l) as [[seg' vl']|] eqn:El.
+  - injection H as <- <-. destruct (IH _ _ eq_refl) as (rest & -> & Hrest & Hlast).
+    exists rest. split; [reflexivity|]. split; [assumption|].
+    intros en ps Hps. cbn [resolve] in Hps. destruct it; try discriminate. destruct it1; try discriminate.
+    destruct (atomval it2 en) as [x0|]; [|discriminate]. destruct (resolve en seg') as [ps'|] eqn:Eps'; [|discriminate].
+    injection Hps as <-. destruct (Hlast en ps' Eps') as (x & Hx & Hl). exists x. split; [assumption|].
+    cbn [lastv]. rewrite Hl. reflexivity.
+  - destruct it; try discriminate. destruct it1; try discriminate.
+    destruct (atom_eqb a0 a) eqn:Ea; [|discriminate]. injection H as <- <-.
+    exists l. split; [reflexivity|]. split; [apply last_seg_none; assumption|].
+    intros en ps Hps. cbn [resolve] in Hps. destruct (atomval it2 en) as [x0|]; [|discriminate].
+    injection Hps as <-. exists x0. split; [reflexivity|]. cbn [lastv].
+    rewrite <- atom_eqb_key, Ea. reflexivity.
+Qed.
+
+Lemma resolve_remove : forall a en seg ps, resolve en seg = Some ps ->
+  resolve en (remove_key a seg) = Some (filt (val_of_atom a) ps).
+Proof.
+  intros a en. induction seg as [|it seg IH]; intros ps H.
+  - injection H as <-. reflexivity.
+  - cbn [resolve] in H. destruct it; try discriminate. destruct it1; try discriminate.
+    destruct (atomval it2 en) as [x0|] eqn:Ex; [|discriminate]. destruct (resolve en seg) as [ps'|] eqn:Eps'; [|discriminate].
+    injection H as <-. specialize (IH _ eq_refl). unfold remove_key, filt in *. cbn [filter is_key_of fst].
+    rewrite <- atom_eqb_key. destruct (atom_eqb a0 a); cbn [negb].
+    + apply IH.
+    + cbn [resolve]. rewrite Ex, IH. reflexivity.
+Qed.
+
+Lemma remove_key_app : forall a l1 l2, remove_key a (l1 ++ l2) = remove_key a l1 ++ remove_key a l2.
+Proof. intros. unfold remove_key. apply filter_app. Qed.
+
+Lemma seg_ok_remove : forall a seg, forallb seg_item_ok seg = true -> forallb seg_item_ok (remove_key a seg) = true.
+Proof.
+  intros a seg H. rewrite forallb_forall in *. intros x Hx. unfold remove_key in Hx.
+  apply filter_In in Hx as [Hx _]. apply H. assumption.
+Qed.
+
+Lemma last_seg_simple : forall a l seg vl,
+  last_seg a l = Some (seg, vl) -> forallb seg_item_ok seg = true -> simple vl = true.
+Proof.
+  intros a. induction l as [|it l IH]; intros seg vl Hls Hseg; [discriminate|].
+  cbn [last_seg] in Hls. destruct (last_seg a l) as [[seg' vl']|] eqn:E.
+  - injection Hls as <- <-. cbn in Hseg. apply andb_true_iff in Hseg as [_ Hseg]. eapply IH; [reflexivity|assumption].
+  - destruct it; try discriminate. destruct it1; try discriminate. destruct (atom_eqb a0 a); [|discriminate].
+    injection Hls as <- <-. cbn in Hseg. apply andb_true_iff in Hseg as [Hs _]. exact Hs.
+Qed.
+
+(* one group: the first entry gets the last value, the later entries with an equal key are removed *)
+Lemma dup_dict_step : forall w en a v tl seg vl d tr r,
+  last_seg a tl = Some (seg, vl) -> simple v = true -> forallb seg_item_ok seg = true ->
+  eval_items (eval w) en (EKV (EConst a) v :: tl) d tr = Some r ->
+  eval_items (eval w) en (EKV (EConst a) vl :: remove_key a tl) d tr = Some r.
+Proof.
+  intros w en a v tl seg vl d tr r Hls Hv Hseg Hev.
+  pose proof (last_seg_simple _ _ _ _ Hls Hseg) as Hvl.
+  destruct (last_seg_spec _ _ _ _ Hls) as (rest & -> & Hrest & Hlast).
+  cbn [eval_items eval] in *. rewrite (simple_eval_eq _ _ _ _ Hv) in Hev.
+  destruct (atomval v en) as [x0|]; [|discriminate]. rewrite hashable_atom in *.
+  rewrite eval_seg in Hev by assumption. destruct (resolve en seg) as [ps|] eqn:Eps; [|discriminate].
+  destruct (Hlast en ps Eps) as (xl & Hxl & Hl).
+  rewrite (simple_eval_eq _ _ _ _ Hvl), Hxl. rewrite remove_key_app, Hrest.
+  rewrite eval_seg by (apply seg_ok_remove; assumption). rewrite (resolve_remove _ _ _ _ Eps).
+  rewrite (dict_update_hoist (val_of_atom a) ps) in Hev by apply dict_has_set.
+  rewrite Hl in Hev. rewrite dict_set_overwrite in Hev by apply key_eqb_refl. exact Hev.
+Qed.
+
+Lemma items_cons_congr : forall w en it l l' d tr r,
+  (forall d' tr', eval_items (eval w) en l d' tr' = Some r -> eval_items (eval w) en l' d' tr' = Some r) ->
+  eval_items (eval w) en (it :: l) d tr = Some r -> eval_items (eval w) en (it :: l') d tr = Some r.
+Proof.
+  intros w en it l l' d tr r H Hev. destruct it; try discriminate; cbn [eval_items] in *.
+  - destruct (eval w it1 en tr) as [[kv tr1]|]; [|discriminate].
+    destruct (eval w it2 en tr1) as [[vv tr2]|]; [|discriminate].
+    destruct (hashable kv); [apply H; assumption | discriminate].
+  - destruct (eval w it en tr) as [[[] tr1]|]; try discriminate. apply H; assumption.
+Qed.
+
+Lemma dup_dict_items_sound : forall w en fuel seen items d tr r,
+  eval_items (eval w) en items d tr = Some r ->
+  eval_items (eval w) en (dedup_dict_items fuel seen items) d tr = Some r.
+Proof.
+  intros w en. induction fuel as [|fuel IH]; intros seen items d tr r Hev; [exact Hev|].
+  destruct items as [|it tl]; [exact Hev|]. cbn [dedup_dict_items].
+  assert (Hkeep : forall seen', eval_items (eval w) en (it :: dedup_dict_items fuel seen' tl) d tr = Some r).
+  { intros seen'. eapply items_cons_congr; [|exact Hev]. intros d' tr' H. apply IH. assumption. }
+  destruct it; try apply Hkeep. destruct it1; try apply Hkeep.
+  destruct (existsb (atom_eqb a) seen); [apply Hkeep|].
+  destruct (last_seg a tl) as [[seg vl]|] eqn:Els; [|apply Hkeep].
+  destruct (simple it2 && forallb seg_item_ok seg) eqn:Eok; [|apply Hkeep].
+  apply andb_true_iff in Eok as [Hv Hseg].
+  eapply items_cons_congr; [|eapply dup_dict_step; eassumption].
+  intros d' tr' H. apply IH. assumption.
+Qed.
+
+(* {k: v1, ..., k: vn} -> {k: vn, ...}: the first key (object and position) with the last value; only when
+   the keys in between are constants and the values have no effect.  A normally terminating evaluation
+   keeps its value (a dict with the same keys, order and values) and its call trace. *)
+Theorem dup_dict_sound : forall w e e',
+  rw_dup_dict e = Some e' ->
+  forall en tr r, eval w e en tr = Some r -> eval w e' en tr = Some r.
+Proof.
+  intros w e e' Hr en tr r Hev. destruct e; try discriminate. cbn [rw_dup_dict] in Hr.
+  destruct (length (dedup_dict_items (length items) [] items) <? length items)%nat; [|discriminate].
+  injection Hr as <-. rewrite eval_EDict in *.
+  destruct (eval_items (eval w) en items [] tr) as [[d tr1]|] eqn:E; [|discriminate].
+  rewrite (dup_dict_items_sound _ _ _ _ _ _ _ _ E). exact Hev.
+Qed.
+
+Example dup_dict_example :
+  rw_dup_dict (EDict [EKV (EConst (AInt 1)) (EConst (AStr 1)); EKV (EConst (AInt 2)) (ECall 0 []);
+                      EKV (EConst (AInt 3)) (EName 2); EKV (EConst (AStr 2)) (EConst ANone);
+                      EKV (EConst (AInt 3)) (EConst (AInt 5)); EKV (EConst (ABool true)) (ECall 0 [])])
+  = Some (EDict [EKV (EConst (AInt 1)) (EConst (AStr 1)); EKV (EConst (AInt 2)) (ECall 0 []);
+                 EKV (EConst (AInt 3)) (EConst (AInt 5)); EKV (EConst (AStr 2)) (EConst ANone);
+                 EKV (EConst (ABool true)) (ECall 0 [])]).
+Proof. reflexivity. Qed.
